@@ -84,15 +84,16 @@ type fn struct {
 	mayPanic bool
 	impure   bool // writes globals / referents of its arguments
 	recovers bool
-	tainted  bool   // calls, transitively, a function that recovers
-	grouped  bool   // adjacent parameters of one type share the type (`a, b int`)
-	lambda   bool   // a function literal bound to a local variable of the enclosing function
-	tailProc bool   // a small procedure that is little more than its last statement
-	rcPanics bool   // small function that panics on guardC + n*guardK and recovers
-	rcWatch  bool   // small function that never panics and logs what its deferred recover() sees
+	tainted  bool // calls, transitively, a function that recovers
+	grouped  bool // adjacent parameters of one type share the type (`a, b int`)
+	lambda   bool // a function literal bound to a local variable of the enclosing function
+	tailProc bool // a small procedure that is little more than its last statement
+	rcPanics bool // small function that panics on guardC + n*guardK and recovers
+	rcWatch  bool // small function that never panics and logs what its deferred recover() sees
 	guardK   int
 	guardC   int
 	lines    [2]int // first and last source line, filled after assembly
+	file     string // the file of the package it stands in
 }
 
 func (f *fn) sig() string {
@@ -182,10 +183,10 @@ type gen struct {
 	budget    int // statements left in the current function
 	forceDecl int
 	nmark     int
-	inLambda  bool   // the body of a function literal is being generated
-	onlyLog   bool   // of the package variables only glog may be mentioned
+	inLambda  bool // the body of a function literal is being generated
+	onlyLog   bool // of the package variables only glog may be mentioned
 	arr       *arrInfo
-	nilPtrs   []*vr // pointers of the current function that may be nil
+	nilPtrs   []*vr  // pointers of the current function that may be nil
 	names     *namer // identifiers of the program (see names_test.go)
 
 	feat   map[string]bool
@@ -2200,6 +2201,8 @@ func (g *gen) stmt(depth int) {
 		g.block(1+g.r.Intn(2), depth-1)
 		g.w("}")
 		g.f("block")
+	case x < 98:
+		g.litStmt()
 	default:
 		// fold something into the accumulator so that state shows in the result
 		g.fold()
@@ -2514,6 +2517,9 @@ func (g *gen) genFunc(p fnPlan) {
 		if g.r.Bool() {
 			g.guardStmt()
 		}
+		if g.r.Intn(3) == 0 {
+			g.litStmt()
+		}
 	}
 	for g.budget > 0 {
 		g.stmt(p.depth)
@@ -2597,6 +2603,9 @@ type argSpec struct {
 type callSpec struct {
 	Fn   string    `json:"fn"`
 	Args []argSpec `json:"args"`
+	// "deploy" / "update": _deploy(nil, false / true) runs first, in the same VM
+	// (natively: RunDeploy before the call)
+	Pre string `json:"pre,omitempty"`
 }
 
 type program struct {
@@ -2612,6 +2621,16 @@ type program struct {
 	globals  []string // names of the package variables (nil: not recorded)
 	hasInit  bool
 	directed string // name of the directed case, "" for generated programs
+
+	// see layout_test.go
+	files      []srcFile // the package as files (nil: the single file src)
+	aux        *auxPkg   // a package of its own that the program imports
+	dirCompile bool      // compiled from a directory, not from a source text
+	deploy     bool      // the program has a _deploy function
+	layout     string
+	reset2     string // second native-only file: ResetAll, RunDeploy
+	resetFn    string // native function restoring the initial package state ("": ResetGlobals)
+	regress    bool   // directed program inside the dialect: judged like a generated one
 }
 
 var intArgs = []int64{0, 1, -1, 2, 3, 7, -20, 64, 13, 1000, 999, -1000, 1<<31 - 1, -(1 << 31), 255, 256, 42}
@@ -2981,18 +3000,24 @@ func (g *gen) lastLine() string {
 
 // locate fills the source line range of every function.
 func (p *program) locate() {
-	lines := strings.Split(p.src, "\n")
 	for _, f := range p.funcs {
-		h := f.sig() + " {"
-		for i, l := range lines {
-			if l != h {
-				continue
-			}
-			f.lines[0] = i + 1
-			for j := i + 1; j < len(lines); j++ {
-				if lines[j] == "}" {
-					f.lines[1] = j + 1
-					break
+		f.lines, f.file = [2]int{}, ""
+	}
+	for _, sf := range p.fileList() {
+		lines := strings.Split(sf.Text, "\n")
+		for _, f := range p.funcs {
+			h := f.sig() + " {"
+			for i, l := range lines {
+				if l != h {
+					continue
+				}
+				f.lines[0] = i + 1
+				f.file = sf.Name
+				for j := i + 1; j < len(lines); j++ {
+					if lines[j] == "}" {
+						f.lines[1] = j + 1
+						break
+					}
 				}
 			}
 		}
